@@ -492,7 +492,7 @@ func Spec() *mon.Spec {
 			"steps that must fail are only required to raise an exception and to leave every variable and alias unchanged (the kind of exception is not checked)",
 			"keys with colliding hashes are found by calling vals.Hash as a black box on 65k short strings",
 		},
-		Phases: []mon.Phase{{Name: "history", Quick: 1500, Thorough: 32000, Run: runHistory, Timeout: 10 * time.Minute}},
+		Phases: []mon.Phase{{Name: "history", Quick: 1500, Thorough: 16000, Run: runHistory, Timeout: 10 * time.Minute}},
 		Floors: map[string]int{
 			"distinct_nontrivial": 450, "steps": 10000, "alias_rechecks": 300000,
 			"alias_variable": 2500, "alias_closure": 2500, "alias_output": 2500, "alias_embedded-in-list": 2500, "alias_embedded-in-map": 2500,
